@@ -40,7 +40,7 @@
 use std::iter::Sum;
 use std::ops::{AddAssign, DivAssign, MulAssign, Range, SubAssign};
 
-use nalgebra::{Const, DMatrix, Dynamic, Matrix, OMatrix, RowDVector, Scalar, VecStorage, U1};
+use nalgebra::{DMatrix, Dynamic, Matrix, OMatrix, RowDVector, Scalar, VecStorage, U1};
 
 use crate::linalg::cholesky::CholeskyDecomposableMatrix;
 use crate::linalg::evd::EVDDecomposableMatrix;
@@ -198,7 +198,8 @@ impl<T: RealNumber + Scalar + AddAssign + SubAssign + MulAssign + DivAssign + Su
 
     fn to_row_vector(self) -> Self::RowVector {
         let (nrows, ncols) = self.shape();
-        self.reshape_generic(Const::<1>, Dynamic::new(nrows * ncols))
+        // the storage is column-major: walk the transpose to obtain row-major order
+        RowDVector::from_iterator(nrows * ncols, self.transpose().iter().copied())
     }
 
     fn get(&self, row: usize, col: usize) -> T {
